@@ -72,6 +72,8 @@ def colXMain (p : Params) (yP xP : Nat) : List Int :=
 
 /-- `build_im2col(image, kernel, padding, strides, dilations, col_count_step, row_count_step)`. -/
 def buildIm2col (p : Params) (colStep rowStep : Nat) : Option Tables :=
+  -- `assert!(image.len() > 0)`; `next_multiple_of(0)` panics
+  if p.chans = 0 ∨ p.h = 0 ∨ p.w = 0 ∨ colStep = 0 ∨ rowStep = 0 then none else
   match outSize p.h p.kh p.strideH p.padTop p.padBottom p.dilY,
         outSize p.w p.kw p.strideW p.padLeft p.padRight p.dilX with
   | some yP, some xP =>
@@ -95,6 +97,20 @@ def buildIm2col (p : Params) (colStep rowStep : Nat) : Option Tables :=
 /-- The padding test applied to a combined offset `row + col` along one axis (`size` elements,
 stride `st`): the element is read iff `0 ≤ off ≤ (size − 1)·st`, otherwise it is padding (0). -/
 def inImage (size st : Nat) (off : Int) : Bool := decide (0 ≤ off) && decide (off ≤ (((size - 1) * st : Nat) : Int))
+
+/-- Element `(r, q)` of the virtual im2col matrix as the packing code reads it
+(rten-gemm/src/im2col.rs): rows `≥ n_rows` are K-padding — never read on the f32 path
+(`im2col_row_count_step` = 1, the GEMM depth is `n_rows`) and forced to zero on the int8 path
+(`is_k_padding`, fix 1f86924) — so their table entries are irrelevant; otherwise the image element
+at `chan + y + x` when both combined offsets pass the padding test, else zero. -/
+def im2colElem {α : Type} (t : Tables) (h w sth stw : Nat) (img : Int → α) (zero : α) (r q : Nat) : Option α :=
+  if r ≥ t.nRows then some zero
+  else
+    match t.rowChan[r]?, t.rowY[r]?, t.rowX[r]?, t.colY[q]?, t.colX[q]? with
+    | some rc, some ry, some rx, some cy, some cx =>
+      if inImage h sth (ry + cy) && inImage w stw (rx + cx) then some (img (rc + (ry + cy) + (rx + cx)))
+      else some zero
+    | _, _, _, _, _ => none
 
 /-- The seeded variant C14_c of the main column-x loop: the multiply by the image W stride hoisted,
 the left padding left unscaled. -/
